@@ -421,7 +421,7 @@ func TestC13(t *testing.T) {
 	rep.Assume("flow control counts only healthy channels; quiescence by the no-progress criterion (1.2-1.5 s, no timers configured in these scenarios)")
 	seed := shardSeed()
 	shard, nsh := shardInfo()
-	J := vh.Pick(4, 20)
+	J := vh.Pick(8, 20)
 	job := 0
 	for j := 1; j <= J; j++ {
 		for rep2 := 0; rep2 < vh.Pick(1, 3); rep2++ {
@@ -432,7 +432,7 @@ func TestC13(t *testing.T) {
 		}
 	}
 	classes := []string{"werr-once", "werr-sticky", "unencodable:raw-id", "unencodable:raw-id-to", "unencodable:v1-id", "unencodable:v1-frame", "unencodable:frame-raw-empty"}
-	positions := []int{0, 1, 5}
+	positions := []int{0, 1, 2, 5, 9, 17}
 	if vh.Thorough() {
 		positions = positions[:0]
 		for p := 0; p <= 50; p += 1 {
